@@ -1472,6 +1472,9 @@ namespace bloch::runtime {
         obj->destroyed = true;
         if (runUserDestructor && obj->cls) {
             bool savedReturn = m_hasReturn;
+            // calls made by the destructor body use (and clear) the return slot; a value being
+            // returned while this object goes out of scope must survive them
+            Value savedReturnValue = m_returnValue;
             for (RuntimeClass* cur = obj->cls; cur; cur = cur->base) {
                 if (!cur->destructorDecl || !cur->destructorDecl->body)
                     continue;
@@ -1504,6 +1507,7 @@ namespace bloch::runtime {
                 m_currentClassCtx = prevClass;
             }
             m_hasReturn = savedReturn;
+            m_returnValue = savedReturnValue;
         }
         // Reset tracked qubits
         if (obj->cls) {
